@@ -222,11 +222,19 @@ func (g *streamGen) signal(kind string, allowNext bool, maxAt int) *Sig {
 	if t.Chance(3, 4) {
 		s.At = 1 + t.Draw(maxAt)
 	}
-	switch t.Weighted(4, 1, 1) {
+	switch t.Weighted(6, 2, 2, 1, 1, 1, 1) {
 	case 1:
 		s.Via = "func"
 	case 2:
 		s.Via = "if"
+	case 3:
+		s.Via = "forin"
+	case 4:
+		s.Via = "while"
+	case 5:
+		s.Via = "match"
+	case 6:
+		s.Via = "func2"
 	}
 	return s
 }
